@@ -149,7 +149,7 @@ def assert1Op {α} (p : α → α → Bool) (errName : Err) : LocalOp α α wher
 def feedL {β γ} (L : LocalOp β γ) : L.σ → List (LOut β) → L.σ × List (LOut γ)
   | s, [] => (s, [])
   | s, .item b :: r => let a := L.next s b; let a2 := feedL L a.1 r; (a2.1, a.2 ++ a2.2)
-  | s, .err e :: r => let a2 := feedL L s r; (a2.1, L.onErr e ++ a2.2)
+  | s, .err e :: r => let a := L.onErr s e; let a2 := feedL L a.1 r; (a2.1, a.2 ++ a2.2)
   | s, .fatal e :: r => let a2 := feedL L s r; (a2.1, .fatal e :: a2.2)
 
 def compLocal {α β γ} (L1 : LocalOp α β) (L2 : LocalOp β γ) : LocalOp α γ where
@@ -162,7 +162,10 @@ def compLocal {α β γ} (L1 : LocalOp α β) (L2 : LocalOp β γ) : LocalOp α 
   fin := fun s =>
     let r2 := feedL L2 s.2 (L1.fin s.1)
     r2.2 ++ L2.fin r2.1
-  onErr := fun e => (feedL L2 L2.init (L1.onErr e)).2   -- handlers are stateless: see `compLocal_onErr`
+  onErr := fun s e =>
+    let r1 := L1.onErr s.1 e
+    let r2 := feedL L2 s.2 r1.2
+    ((r1.1, r2.1), r2.2)
 
 def idLocal {α} : LocalOp α α :=
   { σ := Unit, init := (), next := fun _ x => ((), [.item x]), fin := fun _ => [] }
@@ -181,12 +184,12 @@ def idMux {α} : MuxOp α α := ⟨Unit, (), fun _ e => ((), [e])⟩
 
 /-- rxsci/error/ignore.py: drops `OnErrorMux`; also the main-stream side of the error router -/
 def ignoreOp {α} : LocalOp α α :=
-  { σ := Unit, init := (), next := fun _ x => ((), [.item x]), fin := fun _ => [], onErr := fun _ => [] }
+  { σ := Unit, init := (), next := fun _ x => ((), [.item x]), fin := fun _ => [], onErr := fun _ _ => ((), []) }
 
 /-- rxsci/error/map.py: an `OnErrorMux` becomes an item of the same key, in place;
 a raising mapper is `observer.on_error` -/
 def mapErrOp {α} (f : Err → Except Err α) : LocalOp α α :=
   { σ := Unit, init := (), next := fun _ x => ((), [.item x]), fin := fun _ => [],
-    onErr := fun e => match f e with | .ok v => [.item v] | .error e' => [.fatal e'] }
+    onErr := fun _ e => ((), match f e with | .ok v => [.item v] | .error e' => [.fatal e']) }
 
 end Rx
